@@ -7,13 +7,16 @@ import mdibmodel
 from mdibgen import Tables
 
 FILE = '70041_MDIB_Final.xml'
+# the second file starts WITH context states (an associated location state without BindingStartTime, a patient)
+FILES = {FILE: 'SVO.41.PC.mds0', 'mdib_two_mds.xml': 'opSetPatCtx'}
 DH, LH, OP = 'PC.mds0', 'LC.mds0', 'SVO.41.PC.mds0'
 ASSOC = {None: 0, 'No': 0, 'Pre': 1, 'Assoc': 2, 'Dis': 3}
 HEADER = ('From Coq Require Import List ZArith Bool.\nImport ListNotations.\n'
           'From SDC Require Import Mdib.Model Mdib.Run Mdib.Context Mdib.CtxRun.\nOpen Scope Z_scope.\n')
 
 
-def gen_case(rng, nops):
+def gen_case(rng, nops, mdib_file=FILE):
+    OP = FILES[mdib_file]
     """proposals are [handle reference | None, association | None, payload number, descriptor handle]; most go to the
     patient context (the operation's target), some to the location context: the handler takes the descriptor from the
     proposal.  A handle reference ['nth', i] is resolved by the executor to the i-th existing state of that descriptor
@@ -48,7 +51,7 @@ def gen_case(rng, nops):
                 else:
                     props.append([ref(), rng.choice(['Assoc', 'Dis', 'No', None]), n, dh])
             ops.append({'k': 'setctx', 'dh': DH, 'op_handle': OP, 'proposals': props, 'multi': True})
-    return {'mdib': FILE, 'consumer': True, 'role_hooks': True, 'ops': ops}
+    return {'mdib': mdib_file, 'consumer': True, 'role_hooks': True, 'ops': ops}
 
 
 def oracle(case, result):
@@ -159,7 +162,8 @@ def run(ctx):
     if not ctx.prove():
         ctx.broken('theorem', 'Props/C10.v', ctx.proof_error)
     ncases, nops = ctx.n(48, 700), ctx.n(10, 40)
-    cases = [gen_case(random.Random(ctx.rng.getrandbits(48)), random.Random(i).randint(max(3, nops // 2), nops))
+    cases = [gen_case(random.Random(ctx.rng.getrandbits(48)), random.Random(i).randint(max(3, nops // 2), nops),
+                      FILE if i % 3 else 'mdib_two_mds.xml')
              for i in range(ncases)]
     batches = [cases[i:i + 6] for i in range(0, len(cases), 6)]
     with ThreadPoolExecutor(max_workers=12) as ex:
@@ -200,7 +204,7 @@ def run(ctx):
                 ctx.fail(f'context: step {n} {mdibcheck.json_short(c["ops"][n])} -> {why}',
                          {'clause': clause, 'op': c['ops'][n]['k'] + ('/multi' if c['ops'][n].get('multi') else '')},
                          {'stream': 'context', 'case': short, 'failing_step': n, 'impl_trace_tail': r['trace'][max(0, n - 1):n + 1]})
-    tr = CtxTranslator({FILE: mdibcheck.inventory(ctx, FILE)})
+    tr = CtxTranslator({f: mdibcheck.inventory(ctx, f) for f in FILES})
     lits = []
     for c, r in pairs:
         name, u, h, e = tr.ctx_case(c, r)
